@@ -672,6 +672,19 @@ fn explore(ctx: &Ctx) -> Outcome {
             v.sig = format!("after-failed-calls:{}", v.sig);
         }
     }
+    // ... and EACH SINGLE call of that series immediately before a representative case (state
+    // that the very next decode consumes is cleared again by later calls of the whole series)
+    for i in 0..props::poison::count() {
+        for idx in [[0usize, 1, 2], [3, 4, 5]] {
+            let c = Case { fam: format!("after-single-call:{}", i), meta: (i % 4) as u8, clip: (i % 8) as u8, sets: idx.iter().map(|k| shape(*k)).collect() };
+            props::poison::single_call(i);
+            let before = total.violations.len();
+            run_case(&c, &mut total);
+            for v in total.violations.iter_mut().skip(before) {
+                v.sig = format!("after-single-call:{}", v.sig);
+            }
+        }
+    }
     let sv = scale_values();
     let scale_t = sv
         .par_iter()
@@ -768,8 +781,12 @@ fn replay(_ctx: &Ctx, case: &Value) -> Vec<Violation> {
     if poisoned {
         props::poison::failing_calls();
     }
+    let single = c.fam.strip_prefix("after-single-call:").and_then(|i| i.parse::<usize>().ok());
+    if let Some(i) = single {
+        props::poison::single_call(i);
+    }
     match judge(&realise(&c), &mut t) {
-        Some((sig, summary)) => vec![Violation { sig: if poisoned { format!("after-failed-calls:{}", sig) } else { sig }, summary, case: case.clone() }],
+        Some((sig, summary)) => vec![Violation { sig: if poisoned { format!("after-failed-calls:{}", sig) } else if single.is_some() { format!("after-single-call:{}", sig) } else { sig }, summary, case: case.clone() }],
         None => vec![],
     }
 }
